@@ -1,0 +1,17 @@
+//go:build verif
+
+package listener
+
+// Contracts for the datagram connection (property C09), checked by /verif/govc.
+// Comment-only file: it adds nothing to any build.
+//
+// A datagram wrapped as a connection delivers its bytes in order, once, and then reports end of stream:
+// a handler that reads until an error returns after the datagram has been consumed.
+//@ func (*DummyUDPConn).Read
+//@   check safety
+//@   requires disjoint(b, dc.Buffer)
+//@   ensures [eof] old(len(dc.Buffer)) == 0 ==> result0 == 0 && result1 != nil && len(dc.Buffer) == 0
+//@   ensures [data] old(len(dc.Buffer)) > 0 ==> result1 == nil && result0 <= len(b) && result0 <= old(len(dc.Buffer)) && (result0 == len(b) || result0 == old(len(dc.Buffer))) && len(dc.Buffer) == old(len(dc.Buffer)) - result0
+//@   ensures [delivered] old(len(dc.Buffer)) > 0 ==> (forall i int :: 0 <= i && i < result0 ==> b[i] == old(dc.Buffer[i]))
+//@   ensures [progress] len(b) > 0 && old(len(dc.Buffer)) > 0 ==> len(dc.Buffer) < old(len(dc.Buffer))
+//@   modifies dc.Buffer, b[:]
